@@ -122,11 +122,38 @@ def taskAvailJ : TaskAvail → Json
   | .missingVar v => Json.arr #["err", Json.str ("var:" ++ v)]
   | .missingModule m => Json.arr #["err", Json.str ("module:" ++ m)]
 
-def outcomeJ (builder app : String) : Outcome → Json
+def depJ : Dep → Json
+  | .hard n => Json.arr #["h", Json.str n]
+  | .soft n => Json.arr #["s", Json.str n]
+  | .ifHard c n => Json.arr #["ih", Json.str c, Json.str n]
+  | .ifSoft c n => Json.arr #["is", Json.str c, Json.str n]
+
+/-- the loaded view of a module, field by field as `verif::module_json` prints it -/
+def moduleJ (m : Laze.Module) : Json := Json.mkObj [
+  ("name", m.name), ("context", m.contextName),
+  ("selects", Json.arr (m.selects.map depJ).toArray), ("imports", Json.arr (m.imports.map depJ).toArray),
+  ("provides", toJson m.provides), ("conflicts", toJson m.conflicts),
+  ("sources", toJson m.sources),
+  ("sources_optional", match m.sourcesOptional with
+    | some l => Json.arr (l.map (fun (k, v) => Json.arr #[Json.str k, toJson v])).toArray
+    | none => Json.null),
+  ("srcdir", toJson m.srcdir), ("relpath", m.relpath),
+  ("is_build_dep", m.isBuildDep), ("is_global_build_dep", m.isGlobalBuildDep),
+  ("build_dep_files", toJson m.buildDepFiles), ("has_build", m.build.isSome), ("has_download", m.download.isSome),
+  ("notify_all", m.notifyAll),
+  ("env_local", envJ m.envLocal), ("env_export", envJ m.envExport), ("env_global", envJ m.envGlobal)]
+
+/-- the selected modules of a build as loaded (`Bag.resolveModule`; the app as `Build::new` clones it) -/
+def loadedJ (bag : Bag) (cli : Cli) (builder app : String) (names : List Laze.Name) : Json :=
+  Json.arr (names.filterMap (fun n =>
+    (bag.resolveModule builder n).map (fun m => moduleJ (if n == app then appClone m builder cli else m)))).toArray
+
+def outcomeJ (bag : Bag) (cli : Cli) (builder app : String) : Outcome → Json
   | .noBuild r => Json.mkObj [("builder", builder), ("app", app), ("decision", match r with
       | .blocked => "blocked" | .notAncestor => "not-ancestor" | .unresolved => "unresolved" | .depCycle => "dep-cycle")]
   | .build i => Json.mkObj [("builder", builder), ("app", app), ("decision", "built"),
-      ("modules", toJson i.modules), ("outfile", i.out), ("global_flat", flatJ i.globalFlat),
+      ("modules", toJson i.modules), ("loaded", loadedJ bag cli builder app i.modules),
+      ("outfile", i.out), ("global_flat", flatJ i.globalFlat),
       ("module_flats", Json.arr (i.moduleFlat.map (fun (n, f) => Json.arr #[Json.str n, flatJ f])).toArray),
       ("tasks", Json.arr (i.tasks.map (fun (n, t) => Json.arr #[Json.str n, taskAvailJ t])).toArray),
       ("entries", toJson i.entries)]
@@ -162,4 +189,4 @@ def handleGen (j : Json) : Json :=
           | none => Json.mkObj [("bad", "empty failure list")]
       | .ok (.done r) => Json.mkObj [("ok", Json.mkObj [
           ("ninja", r.ninja st), ("files", toJson files),
-          ("builds", Json.arr (r.outcomes.map (fun (b, a, o) => outcomeJ b a o)).toArray)])]
+          ("builds", Json.arr (r.outcomes.map (fun (b, a, o) => outcomeJ bag args.cli b a o)).toArray)])]
